@@ -97,7 +97,7 @@ func genC01(c *Ctx) {
 	step := 0
 	for i := 0; i < n; i++ {
 		if i == 0 {
-			big = c01BigCases(c, r.Fork(0xc01d))
+			big = append(c01BigCases(c, r.Fork(0xc01d)), c01ExactBytes(c)...)
 			// densely filled cells (output capacity): c01e.go
 			dense := c01DenseClosures(c, r.Fork(0xc01e))
 			var mix []func()
